@@ -264,6 +264,18 @@ func genRequest(rng *rand.Rand, tok string, big bool) *genReq {
 	if rng.Intn(3) > 0 {
 		g.Fields = append(g.Fields, rawhttp.Field{Name: "User-Agent", Value: "verif-client/" + tok})
 	}
+	// now and then a header block far beyond the usual few hundred bytes (below net/http's 1 MiB server default)
+	if rng.Intn(40) == 0 {
+		n := []int{17, 60, 1}[rng.Intn(3)]
+		for k := 0; k < n; k++ {
+			sz := 1000
+			if n == 1 {
+				sz = 30000
+			}
+			g.Fields = append(g.Fields, rawhttp.Field{Name: "X-Big-" + tok, Value: fmt.Sprintf("big%d-%s", k, strings.Repeat("abcdefghij", sz/10))})
+		}
+		shape += "B"
+	}
 	// interleave one more value of an already used repeated field at the end (order across the message)
 	if len(g.Fields) > 2 && rng.Intn(4) == 0 {
 		f := g.Fields[0]
@@ -345,7 +357,7 @@ func genRequest(rng *rand.Rand, tok string, big bool) *genReq {
 			fr = "chunked"
 		}
 	}
-	g.Class = fmt.Sprintf("%s|%s|hdr:%d%s|body:%s|%s|hop:%x", methodClass(g.Method), tclass, len(shape), boolStr(strings.Contains(shape, "R"), "+rep", ""), sizeClass(g.BodyLen), fr+boolStr(len(g.Trailers) > 0, "+trailers", ""), hopShape)
+	g.Class = fmt.Sprintf("%s|%s|hdr:%d%s|body:%s|%s|hop:%x", methodClass(g.Method), tclass, len(shape), boolStr(strings.Contains(shape, "R"), "+rep", "")+boolStr(strings.Contains(shape, "B"), "+big", ""), sizeClass(g.BodyLen), fr+boolStr(len(g.Trailers) > 0, "+trailers", ""), hopShape)
 	return g
 }
 
